@@ -47,6 +47,9 @@ class ExpressionSolver:
 
     def solve(self, expr:Union[str,Expression]):
         self.expr = Expression(expr) if isinstance(expr, str) else expr
+        # Discard tokens left behind by a previous call that raised
+        self.tokens.left = []
+        self.tokens.right = []
         
         # Tokenize expression
         while self.expr.right:
